@@ -46,6 +46,7 @@ def spell(rng, k: str, v: str, w: str) -> tuple[tuple, dict]:
         forms += [((k, v), {}), ((k,), {"v": v})]
         if v == "d":
             forms += [((k,), {}), ((), {"k": k})]
+    # (values are drawn from overlapping pools: the same value may occur under different argument names)
     return rng.choice(forms)
 
 
@@ -109,7 +110,7 @@ def run(ctx: Ctx) -> None:
                     clock.advance(1000)
                     r = ctx.rng.random()
                     if r < 0.6 or not invs:
-                        k_, v_, w_ = ctx.rng.choice(["a", "b", "a" + LONG, "b" + LONG] if ci >= 7 else "ab"), ctx.rng.choice(["d", "x", "x" + LONG] if ci >= 7 else ["d", "x"]), ctx.rng.choice(["e", "y"])
+                        k_, v_, w_ = ctx.rng.choice(["a", "b", "a" + LONG, "b" + LONG] if ci >= 7 else ["a", "b", "d"]), ctx.rng.choice(["d", "x", "x" + LONG] if ci >= 7 else ["d", "a", "b"]), ctx.rng.choice(["e", "a"])
                         args, kwargs = spell(ctx.rng, k_, v_, w_)
                         bound = {"k": k_, "v": v_, "w": w_}
                         call = Call(task, task.args(*args, **kwargs))
